@@ -56,6 +56,11 @@ type Decoder struct {
 	typList    []string
 	refList    []reflect.Value
 	clsDefList []ClassDef
+
+	// skipping > 0 while the value of a wire field without Go counterpart is
+	// consumed: classes and container types the type map does not know are
+	// then read generically instead of being an error
+	skipping int
 }
 
 //NewDecoder new
@@ -78,6 +83,7 @@ func (d *Decoder) Reset(r ByteRuneReader) {
 	d.typList = make([]string, 0, 11)
 	d.clsDefList = make([]ClassDef, 0, 11)
 	d.refList = make([]reflect.Value, 0, 11)
+	d.skipping = 0
 }
 
 //RegisterType register key/value type
